@@ -2,6 +2,7 @@ SPECIFICATION TraceSpec
 CONSTANTS
   NK = 8600
   NV = 7
+  Shades = 2
   BDepth = 100000
   Obs <- ObsTrace
 POSTCONDITION TraceAccepted
